@@ -12,6 +12,7 @@ from __future__ import annotations
 import json
 import os
 import random
+import re
 import subprocess
 from collections import Counter
 from pathlib import Path
@@ -25,7 +26,7 @@ LEVEL = "exploration"
 BATCH = 1
 TIMEOUT = 900
 REQUIRED_OBS = ["toml_keys_compared", "cli_vs_api_trees_compared", "files_compared", "solver_dense", "solver_sparse", "solver_rosenbrock4", "solver_cusparse",
-                "with_replacement", "with_binding_or_yield", "with_modifiers", "with_allowed_species", "with_cooling", "with_bulk_prefix", "examples_rendered", "with_explicitly_empty_list", "with_repeated_format"]
+                "with_replacement", "with_binding_or_yield", "with_modifiers", "with_allowed_species", "with_cooling", "with_bulk_prefix", "examples_rendered", "with_explicitly_empty_list", "with_repeated_format", "example_command_lines_checked"]
 RULE = ("option sets for `naunet init`: element / pseudo-element lists (default, upper-case with replacement table), surface and bulk prefixes, "
         "allowed and extra species, binding-energy and yield tables, network files of every format, grain model, cooling lists, shielding "
         "tables, rate and ODE modifiers, every solver/method/device; list values with irregular spacing, trailing separators and empty "
@@ -175,6 +176,9 @@ def gen_cases(tier):
     ex = [4, 8] if tier == "quick" else [0, 1, 3, 4, 5, 7, 8, 9, 11, 12, 15, 16, 17, 18]
     for sel in ex:
         cases.append({"kind": "example", "select": sel})
+    for sel in range(22):
+        if tier == "thorough" or sel % 3 == 1 or sel >= 19:
+            cases.append({"kind": "example_dry", "select": sel})
     return cases
 
 
@@ -197,6 +201,51 @@ def child(job, work, tag):
 EXAMPLES = ["empty/dense", "empty/sparse", "empty/cusparse", "empty/rosenbrock4", "minimal/dense", "minimal/sparse", "minimal/cusparse", "minimal/rosenbrock4",
             "primordial/dense", "primordial/sparse", "primordial/cusparse", "primordial/rosenbrock4", "deuterium/dense", "deuterium/sparse", "deuterium/cusparse",
             "deuterium/rosenbrock4", "cloud/dense", "cloud/sparse", "cloud/rosenbrock4"]
+
+
+ALL_EXAMPLES = EXAMPLES + ["ism/dense", "ism/sparse", "ism/cusparse"]
+
+
+def run_example_dry(case, ctx, obs, viol):
+    """The option string `naunet example` hands to `naunet init` carries the example's settings unchanged (also for the ism examples,
+    whose network file is not bundled and which therefore cannot be rendered here)."""
+    import importlib
+    work = ctx.fresh_dir("d")
+    name = ALL_EXAMPLES[case["select"]]
+    ex, method = name.split("/")
+    r = child({"mode": "example_dry", "select": case["select"], "out": str(work / "x"), "cwd": str(work), "desc": {}}, work, "dry")
+    if r.get("harness"):
+        return {"example": name, "lost": r.get("error")}
+    text = r.get("dry") or ""
+    opts = {m.group(1): (m.group(2) if m.group(2) is not None else m.group(3)) for m in re.finditer(r"--([\w-]+)=(?:'([^']*)'|(\S*))", text)}
+    if "network-files" not in opts:
+        viol.append(violation("example_failed", f"naunet example --select={case['select']} --dry printed no init command: {r.get('error') or text[:200]}"))
+        return {"example": name}
+    obs["example_command_lines_checked"] += 1
+    mod = importlib.import_module(f"naunet.examples.{ex}")
+    def lst(v):
+        return [x.strip() for x in v.split(",") if x.strip()]
+    def kv(v, sep):
+        out = {}
+        for item in lst(v):
+            k, _, val = item.partition(sep)
+            out[k.strip()] = float(val)
+        return out
+    checks = [("elements", lst(opts.get("elements", "")), list(mod.elements)), ("pseudo-elements", lst(opts.get("pseudo-elements", "")), list(mod.pseudo_elements)),
+              ("allowed-species", lst(opts.get("allowed-species", "")), list(mod.allowed_species)), ("extra-species", lst(opts.get("extra-species", "")), list(mod.extra_species)),
+              ("network-files", lst(opts.get("network-files", "")), lst(mod.files) if isinstance(mod.files, str) else list(mod.files)),
+              ("file-formats", lst(opts.get("file-formats", "")), lst(mod.formats) if isinstance(mod.formats, str) else list(mod.formats)),
+              ("grain-model", opts.get("grain-model", ""), mod.grain_model), ("heating", lst(opts.get("heating", "")), list(mod.heating)),
+              ("cooling", lst(opts.get("cooling", "")), list(mod.cooling)),
+              ("binding", kv(opts.get("binding", ""), "="), {k: float(v) for k, v in mod.binding_energy.items()}),
+              ("yield", kv(opts.get("yield", ""), "="), {k: float(v) for k, v in mod.photon_yield.items()}),
+              ("method", opts.get("method"), method)]
+    for key, got, want in checks:
+        obs["example_options_compared"] += 1
+        if got != want:
+            diff = {k: (got.get(k), want.get(k)) for k in set(got) | set(want) if got.get(k) != want.get(k)} if isinstance(want, dict) else (str(got)[:100], str(want)[:100])
+            viol.append(violation("example_option_differs", f"naunet example {name}: --{key} handed to init differs from the example's setting: {str(diff)[:300]}", key=key))
+    return {"example": name, "dry": True}
 
 
 def run_example(case, ctx, obs, viol):
@@ -262,6 +311,10 @@ def compare_trees(label, cli, api, obs, viol, w=None):
 def run_case(case, ctx):
     import tomlkit
     obs, viol = Counter(), []
+    if case["kind"] == "example_dry":
+        smp = run_example_dry(case, ctx, obs, viol)
+        return {"status": "violated" if viol else ("inconclusive" if smp.get("lost") else "held"), "violations": viol[:8], "obs": dict(obs), "nontrivial": True, "sample": smp,
+                **({"lost": smp["lost"]} if smp.get("lost") else {})}
     if case["kind"] == "example":
         smp = run_example(case, ctx, obs, viol)
         if smp.get("lost"):
